@@ -301,6 +301,11 @@ CloneT(S, h) ==
     IN OkH(AddLive(c.S, [shape |-> t.shape, cells |-> c.cells, view |-> FALSE,
                          pend |-> pd, ord |-> t.ord, al |-> c.al, wide |-> t.wide \/ ~Contiguous(t.cells)]), NewH(S))
 
+(* ShallowClone: a second tensor object over the SAME storage with the same access pattern,
+   pending transposition and mask; its own shape/stride record (later view operations on one do
+   not move the other), every write through either is a write to the shared cells *)
+ShallowCloneT(S, h) == OkH(AddLive(S, S.live[h]), NewH(S))
+
 (* Copy(dst, src): element k of dst := element k of src (logical row-major) *)
 CopyT(S, d, s) ==
     LET td == S.live[d] ts == S.live[s]
@@ -795,6 +800,7 @@ Apply(S, op) ==
       [] op.k = "RollAxis"    -> RollAxisT(S, op.h, op.a[1], op.a[2], op.a[3] = 1)
       [] op.k = "Materialize" -> MaterializeT(S, op.h)
       [] op.k = "Clone"       -> CloneT(S, op.h)
+      [] op.k = "ShallowClone" -> ShallowCloneT(S, op.h)
       [] op.k = "Copy"        -> CopyT(S, op.h, op.a[1])
       [] op.k = "Memset"      -> MemsetT(S, op.h, K(op.a[1]))
       [] op.k = "Zero"        -> ZeroT(S, op.h)
